@@ -158,6 +158,16 @@ def to_real(x):
     raise TypeError(x)
 
 
+class Config:
+    # squares of input values as an uninterpreted function: sound over-approximation that keeps "sum of squares"
+    # queries linear; switched off where the algebra of squares matters (variance identity)
+    sq_uninterpreted = True
+
+
+_SQR = z3.Function("sq", z3.RealSort(), z3.RealSort())
+_SQI = z3.Function("sqi", z3.IntSort(), z3.IntSort())
+
+
 class SF:
     """MATH-domain float: nan flag, real value, +inf / -inf flags (flags are python bools or z3 Bools)"""
     __slots__ = ("nan", "v", "pinf", "ninf")
@@ -251,6 +261,8 @@ class SF:
         o = SF.of(o)
         if not (self.trivial() and o.trivial()):
             raise Unsupported("multiplication with infinities")
+        if Config.sq_uninterpreted and self.v.eq(o.v) and not z3.is_rational_value(self.v):
+            return SF(b_or(self.nan, o.nan), _SQR(self.v))
         return SF(b_or(self.nan, o.nan), self.v * o.v)
 
     def __rmul__(self, o): return SF.of(o).__mul__(self)
@@ -380,6 +392,8 @@ _orig_pow = z3.ArithRef.__pow__
 
 
 def _pow(self, k):
+    if k == 2 and Config.sq_uninterpreted and not (z3.is_int_value(self) or z3.is_rational_value(self)):
+        return _SQI(self) if z3.is_int(self) else _SQR(self)
     if isinstance(k, int) and 0 < k <= 4:
         r = self
         for _ in range(k - 1):
@@ -389,3 +403,28 @@ def _pow(self, k):
 
 
 z3.ArithRef.__pow__ = _pow
+
+
+# numba orders / adds booleans as 0/1 integers
+def _b2i(x):
+    return z3.If(x, z3.IntVal(1), z3.IntVal(0))
+
+
+def _oi(o):
+    if isinstance(o, bool):
+        return z3.IntVal(int(o))
+    if is_sym(o) and z3.is_bool(o):
+        return _b2i(o)
+    return o
+
+
+z3.BoolRef.__lt__ = lambda a, b: _b2i(a) < _oi(b)
+z3.BoolRef.__le__ = lambda a, b: _b2i(a) <= _oi(b)
+z3.BoolRef.__gt__ = lambda a, b: _b2i(a) > _oi(b)
+z3.BoolRef.__ge__ = lambda a, b: _b2i(a) >= _oi(b)
+z3.BoolRef.__add__ = lambda a, b: _b2i(a) + _oi(b)
+z3.BoolRef.__radd__ = lambda a, b: _oi(b) + _b2i(a)
+z3.BoolRef.__sub__ = lambda a, b: _b2i(a) - _oi(b)
+z3.BoolRef.__rsub__ = lambda a, b: _oi(b) - _b2i(a)
+z3.BoolRef.__mul__ = lambda a, b: _b2i(a) * _oi(b)
+z3.BoolRef.__rmul__ = lambda a, b: _oi(b) * _b2i(a)
